@@ -63,6 +63,16 @@ CHECKS = {
          "member multisets and type. Tied to the code by creating the same macrostate/reaction in two permutations on real "
          "objects (identity, canonical form, names, arity, len) and comparing with the model.",
     design="DESIGN.md 7 (C11)", technique="Coq proof (sorted permutation uniqueness) + model/implementation correspondence"),
+ "C12": dict(
+    text="Proof: for every kernel tree over legal names (any nesting, strands, empty loops) the reader's resolve_kernel_loops "
+         "applied to the token list of the tree returns exactly the tree's (sequence, structure) with the closing domains "
+         "synthesised as complements, and kernel_string writes exactly the tree's token texts (induction on trees, no bound). "
+         "Partial: that every well-formed domain-level-complementary complex is such a tree, and that the PEG parser returns "
+         "the tree's token list on its rendering, are not proved; the complete chain kernel_string -> Gallina PEG parse of the "
+         "regenerated grammar -> resolve_kernel_loops is run against the implementation's chain on all structures up to a "
+         "length bound and random deep ones, and the object-level round trip (every rotation, identical singleton) is "
+         "executed on the implementation.",
+    design="DESIGN.md 7 (C12)", technique="Coq proof (induction on kernel trees) + model/implementation correspondence of the whole chain"),
 }
 
 NOT_YET = {}
